@@ -350,9 +350,12 @@ impl BreakerBase {
 
 impl Drop for BreakerBase {
     fn drop(&mut self) {
+        // read the state before locking the listeners: every transition (and the probe's exit hook)
+        // locks the state first and the listeners second
+        let prev = self.current_state();
         let listeners = state_change_listeners().lock().unwrap();
         for listener in &*listeners {
-            listener.on_circuit_breaker_drop(self.current_state(), Arc::clone(&self.rule));
+            listener.on_circuit_breaker_drop(prev, Arc::clone(&self.rule));
         }
     }
 }
